@@ -6,12 +6,19 @@ import cppgen
 import ekf_h as eh
 import fk
 import gen
+import re
+from fractions import Fraction as F
+
 import runtime_h as rh
 
 RULE = ("exhaustive over the finite configuration space: {control, no control} x {calibration, no calibration} x sensors {0,1,3} x max_dt "
         "{default, 0.05}: generate the filter, compile a driver with static_assert(ManagedFilter<...>::compatible), tick with and without "
         "readings (unsorted timestamps) and compare bit-for-bit with calling process_model / sensor_model by hand in the same binary along "
-        "the step plan of the Lean model; distinct by (configuration, scenario); non-trivial = readings present or backward travel")
+        "the step plan of the Lean model; distinct by (configuration, scenario); non-trivial = readings present or backward travel; "
+        "interface stream: for every generated header, the Tag aliases, the declared process_model / StampedReadingBase::sensor_model parameter "
+        "lists, the SensorId members and the configured max_dt_sec read back from the header text are compared with EkfDef.iface of the Lean "
+        "model (the object of generated_compatible / calls_match_declarations / one_constructor / tick_overloads), and the model's "
+        "ManagedFilter calls must equal the declared lists")
 NOTE = ["the by-hand dt sequence comes from the Lean plan model (C10, binary64 instance); sensor updates and predictions by hand use the "
         "generated filter's own public functions, so equality is bitwise",
         "compile = g++ -std=c++20 against the Eigen stand-in; C++ overload resolution / SFINAE / static_assert are g++'s"]
@@ -104,8 +111,28 @@ def make_main(d, name):
     return "\n".join(o) + "\n"
 
 
+def _args(text):
+    return [re.sub(r"\s+\w+$", "", " ".join(a.split())) for a in text.split(",") if a.strip()]
+
+
+def header_iface(h):
+    """what the generated header declares, read back from its text"""
+    tag = re.search(r"struct\s+Tag\s*\{(.*?)\};", h, re.S).group(1)
+    out = {k: v.strip() for k, v in re.findall(r"using\s+(\w+)\s*=\s*([^;]+);", tag)}
+    cls = h[h.index("class ExtendedKalmanFilter"):]
+    out["processArgs"] = _args(re.search(r"StateAndVariance\s+process_model\s*\(([^)]*)\)", cls).group(1))
+    base = re.search(r"struct\s+StampedReadingBase\s*\{(.*?)\};", h, re.S).group(1)
+    out["readingArgs"] = _args(re.search(r"sensor_model\s*\(([^)]*)\)", base).group(1))
+    ids = re.search(r"enum\s+class\s+SensorId\s*\{(.*?)\}", h, re.S).group(1)
+    out["sensorIds"] = [x.strip() for x in ids.split(",") if x.strip()]
+    out["max_dt_sec"] = re.search(r"struct\s+Config\s*\{.*?max_dt_sec\s*=\s*([^;]+);", h, re.S).group(1).strip()
+    out["tag_max_dt"] = re.search(r"max_dt_sec\s*=\s*([^;]+);", tag).group(1).strip()
+    return out
+
+
 def run(ctx):
     audit = core.lean_audit("C12")
+    iface_pending, idrv = [], core.Driver()
     jobs, metas = [], []
     reps = 1 if ctx.quick else 4
     i = 0
@@ -125,10 +152,35 @@ def run(ctx):
                         ctx.fail(f"cpp-generate-raises:{fk.exc_kind(e)}", f"C++ generation refuses a valid definition: {e!r}"[:300], cfg)
                         i += 1
                         continue
+                    try:
+                        hi = header_iface(open(g["header"]).read())
+                    except Exception as e:   # noqa: BLE001 - a header without the interface ManagedFilter needs
+                        ctx.fail("interface-missing", f"the generated header lacks a part of the interface ManagedFilter looks at: {e!r}"[:300], cfg)
+                        hi = None
+                    if hi is not None:
+                        iface_pending.append((idrv.add({"op": "iface", "ekf": eh.ekf_json(d, process, sensor), "maxdt": core.frac_str(F(max_dt))}), hi, cfg, max_dt))
                     jobs.append((g, d, make_main(d, g["name"])))
                     metas.append((d, pt, max_dt, cfg))
                     i += 1
     built = cppgen.build_many(jobs)
+    # interface correspondence: header text against EkfDef.iface of the model
+    ians = idrv.run()
+    for idx, hi, cfg, max_dt in iface_pending:
+        a = ians[idx]
+        if "ok" not in a:
+            ctx.fail("interface-model-error", f"the model cannot produce the interface of this definition: {a}"[:300], cfg); continue
+        m = a["ok"]
+        ctx.evaluations += 1; ctx.count("interface-compared")
+        for k in ("StateAndVarianceT", "CalibrationT", "ControlT", "StampedReadingBaseT", "processArgs", "readingArgs", "sensorIds"):
+            if hi.get(k) != m[k]:
+                ctx.fail(f"interface-differs:{k}", f"the generated header declares {k} = {hi.get(k)!r}; the interface model of this definition "
+                         f"(with/without control, calibration; its sensors) has {m[k]!r}", dict(cfg, header=hi, model=m))
+        if hi["tag_max_dt"] != "cpp::Config::max_dt_sec" or float(hi["max_dt_sec"]) != max_dt:
+            ctx.fail("interface-differs:max_dt_sec", f"Tag::max_dt_sec = {hi['tag_max_dt']} and Config::max_dt_sec = {hi['max_dt_sec']}; configured "
+                     f"maximum step is {max_dt!r}", dict(cfg, header=hi))
+        if not m["compatible"] or m["processCall"] != hi["processArgs"] or m["readingCall"] != hi["readingArgs"]:
+            ctx.fail("interface-call-mismatch", "what ManagedFilter passes (per the model of its if-constexpr branches) is not what the generated "
+                     "header declares", dict(cfg, header=hi, model=m))
     # scenarios
     drv = core.Driver()
     plans = []
